@@ -9,6 +9,7 @@ reference models.
 -/
 import Cnl2aspModel.Cnl.CoreLemmas
 import Cnl2aspModel.Cnl.Stratify
+import Cnl2aspModel.Cnl.RefExecSound
 
 namespace Cnl2aspModel.Core
 open Asp
@@ -51,6 +52,16 @@ theorem C01_closed (s : Spec) (rank : List Char → Nat) (h : s.Stratified rank)
 theorem C01_stratified_check (s : Spec) (order : List (List Char)) (h : stratifiedB s order = true) :
     s.Stratified (rankOf order) := stratifiedB_sound s order h
 
+/-- answer-set-hood of a finite interpretation is DECIDED by the executable reading: for a stratified, range-restricted,
+aggregate-free specification and a finite interpretation whose values lie in the universe `U`, `M` is an answer set of the
+compiled program iff `refCheckB s U M` evaluates to true (all three side conditions are evaluated by the driver) -/
+theorem C01_decide (s : Spec) (order : List (List Char)) (U : List Val) (M : List GAtom)
+    (hst : stratifiedB s order = true) (hsafe : s.all Exec.Sentence.safeB = true) (hcov : Exec.coversB U M = true) :
+    Stable (compile s) (Exec.interp M) ↔ Exec.refCheckB s U M = true :=
+  (C01_main s (rankOf order) (stratifiedB_sound s order hst) (Exec.interp M)).trans
+    (Exec.refCheckB_iff (Exec.coversB_sound hcov) s
+      (fun σ hσ => Exec.Sentence.safeB_sound σ (List.all_eq_true.mp hsafe σ hσ))).symm
+
 /-! non-vacuity: graph colouring is in the fragment and stratified -/
 def node (t : Term) : Ent := ⟨"node".toList, [t], 1⟩
 def color (t : Term) : Ent := ⟨"color".toList, [t], 1⟩
@@ -67,5 +78,26 @@ def graphColouring : Spec := [
 
 example : graphColouring.Stratified (rankOf ["node".toList, "color".toList, "edge".toList, "assigned_to".toList]) :=
   C01_stratified_check _ _ (by decide)
+
+/-! … and, decided in the kernel through `C01_decide`: a proper colouring IS an answer set of the compiled program, the same
+interpretation with a second colour for node 1 is NOT -/
+def gcU : List Val := [.num 1, .num 2, .num 3, .str "red".toList, .str "green".toList]
+def ga (p : String) (args : List Val) : GAtom := ⟨p.toList, args⟩
+def gcM : List GAtom := [
+  ga "node" [.num 1], ga "node" [.num 2], ga "node" [.num 3],
+  ga "color" [.str "red".toList], ga "color" [.str "green".toList],
+  ga "edge" [.num 1, .num 2], ga "edge" [.num 2, .num 3],
+  ga "assigned_to" [.num 1, .str "red".toList], ga "assigned_to" [.num 2, .str "green".toList], ga "assigned_to" [.num 3, .str "red".toList]]
+def gcBad : List GAtom := gcM ++ [ga "assigned_to" [.num 1, .str "green".toList]]
+
+set_option maxRecDepth 100000 in
+example : Stable (compile graphColouring) (Exec.interp gcM) :=
+  (C01_decide graphColouring ["node".toList, "color".toList, "edge".toList, "assigned_to".toList] gcU gcM
+    (by decide +kernel) (by decide +kernel) (by decide +kernel)).mpr (by decide +kernel)
+
+set_option maxRecDepth 100000 in
+example : ¬ Stable (compile graphColouring) (Exec.interp gcBad) := fun h =>
+  absurd ((C01_decide graphColouring ["node".toList, "color".toList, "edge".toList, "assigned_to".toList] gcU gcBad
+    (by decide +kernel) (by decide +kernel) (by decide +kernel)).mp h) (by decide +kernel)
 
 end Cnl2aspModel.Core
